@@ -113,17 +113,30 @@ pub fn run() {
       drop(v);
       unsafe { alloc::TRACK = 0 };
       // in place, over shorter / equal / longer prior contents with various capacities
-      for prior in [0usize, 1, items.len(), items.len() + 3, 40] {
+      for prior in [0usize, 1, items.len(), items.len() + 3, 40, 3000] {
         for extra_cap in [0usize, 5] {
+          // the destination's own block is a tracked block too, so that a reallocation of it shows
+          unsafe { alloc::TRACK = 1 };
           let mut place: MiniVec<u32> = MiniVec::with_capacity(prior + extra_cap);
           for k in 0..prior {
             place.push(900_000 + k as u32);
           }
+          unsafe { alloc::TRACK = 0 };
           let cap0 = place.capacity();
           let (r, maxreq) = tracked(|| MiniVec::<u32>::deserialize_in_place(D(Seq { items, pos: 0, hint: *h, fail_at: None }), &mut place));
           r.unwrap();
           let exact = place[..] == items[..];
-          let bound = 24 + 4 * std::cmp::max(std::cmp::max(2048, 2 * cap0), 2 * items.len().next_power_of_two());
+          // what may legitimately ask for storage: the data itself (amortised growth while pushing) and
+          // the up-front reservation for the claimed length, capped at 1024 elements.  When neither
+          // exceeds the capacity the destination already has, a request for more than 1024 elements
+          // beyond that capacity is an unbounded up-front reservation.
+          let capped = std::cmp::min(h.unwrap_or(0), 1024);
+          let needed = std::cmp::max(items.len(), capped);
+          let bound = if needed <= cap0 {
+            24 + 4 * (cap0 + 1024)
+          } else {
+            24 + 4 * std::cmp::max(std::cmp::max(2048, 2 * cap0), 2 * items.len().next_power_of_two())
+          };
           let bounded = maxreq <= bound;
           n += 1;
           if !(exact && bounded) {
